@@ -539,7 +539,9 @@ def cm_worker(k: int, n: int, depth: int) -> Any:
     return part
 
 
-SCENARIOS = {"tunnel": make}
+from .c25t import make_threaded  # noqa: E402
+
+SCENARIOS = {"tunnel": make, "threaded": make_threaded}
 
 
 def run(ctx: Ctx) -> None:
@@ -552,10 +554,15 @@ def run(ctx: Ctx) -> None:
         "callbacks never repeat a state and agree; at quiescent points CONNECTED => channel and transport open; after disconnect() returned: no frame sent, no tunnel task alive, state DISCONNECTED. "
         f"Plus Routing and SecureRouting: ALL sequences of length <= 4 (thorough 5) over {R_EVENTS}: state CONNECTED exactly while the multicast connection is established, callbacks consistent, nothing sent and no task alive while disconnected. "
         f"Plus the ConnectionManager alone, with and without a registered main loop (the thread-safe hand-off of the threaded interface, reports piling up before the loop runs): ALL sequences of length <= 6 (thorough 7) over {CM_EVENTS}: "
-        "state = last report, every callback sees each real transition once and in order, the connected event is set exactly in CONNECTED"
+        "state = last report, every callback sees each real transition once and in order, the connected event is set exactly in CONNECTED. "
+        "Plus the real XKNX with ConnectionConfig(threaded=True) (UDP and TCP tunnel; gateway accepting, or refusing the first connect so that start() fails and is repeated) on TWO virtual loops and an executor agent "
+        f"under one scheduler: every schedule with <= {3 if ctx.thorough else 2} deviations, a deviation being a departure from the default agent order main > executor > connection-loop at a point where more than one can run, an environment event "
+        "(bus frame, user telegram, user stop, server disconnect, +0.5 s) at a quiescent point, or a bus frame while stop() is in progress. Oracle: stop() returns (no join deadlock), then silence, no task alive, thread loop stopped, state "
+        "DISCONNECTED with the last callback saying so; state callbacks never repeat a state; bus frames sent before stop() reach the telegram callback once and in order, user telegrams reach the wire once and in order; every callback runs "
+        "in the main loop's thread and no loop's non-threadsafe scheduling call is used from another thread (asyncio's debug-mode rule, checked on every call)"
     )
     ctx.bounds = {"deviation_bound": bound, "quiescent_steps": steps}
-    ctx.assumptions = ["the second OS thread of the threaded interface is outside the virtual loop; its hand-off into the main loop (ConnectionManager with a registered loop) is covered, with the reports issued from the loop's own thread", "'connected' is judged from what the client can know: channel id and transport present"]
+    ctx.assumptions = ["the threaded interface is explored with the loop iteration as the atomic step (two virtual loops, one OS thread): preemption INSIDE a callback and data shared without a thread-safe hand-over are visible only through the loop-affinity rule", "'connected' is judged from what the client can know: channel id and transport present"]
     for kind in ("udp", "tcp", "secure"):
         for ar in (True, False):
             explore(ctx, __name__, "tunnel", (kind, ar, steps, False), bound=bound)
@@ -563,6 +570,12 @@ def run(ctx: Ctx) -> None:
             if ar:
                 explore(ctx, __name__, "tunnel", (kind, ar, 4, True, "lost"), bound=bound)
             explore(ctx, __name__, "tunnel", (kind, ar, 16 if ctx.thorough else 14, False, "silent"), bound=min(bound, 2))
+    # the threaded interface: two loops + executor under one scheduler (vf/dual.py)
+    tb = 3 if ctx.thorough else 2
+    ctx.bounds["threaded_deviation_bound"] = tb
+    for kind in ("udp", "tcp"):
+        for fam in ("", "refused"):
+            explore(ctx, __name__, "threaded", (kind, fam, 5 if ctx.thorough else 4), bound=tb)
     rdepth = 5 if ctx.thorough else 4
     ctx.bounds["routing_sequence_depth"] = rdepth
     ctx.pmap(routing_worker, [(k, 32, rdepth) for k in range(32)])
